@@ -118,7 +118,8 @@ func NewTagForwardReader(buf []byte) (TagForwardReader, error) {
 	lut[0] = 0
 	for idx := range highKeys {
 		lowContainer := seriesIDs.GetContainerAtIndex(idx)
-		lut[idx+1] = lowContainer.GetCardinality()
+		// offset of next container's tag value ids = offset of current container + its num. of series
+		lut[idx+1] = lut[idx] + lowContainer.GetCardinality()
 	}
 	return &tagForwardReader{
 		buf:       buf[size:],
